@@ -353,3 +353,113 @@ fn next_indices_first_b<'a, P: Prefix, L, R>(
         }
     }
 }
+
+/// Verification hooks: stack injection / read-back and wrappers around the private helper
+/// functions. Only compiled with feature `verif-hooks`.
+///
+/// Stack entries are encoded as `(kind, l, r)` with kind 0 = Both, 1 = FirstA, 2 = FirstB.
+#[cfg(feature = "verif-hooks")]
+#[allow(missing_docs)]
+#[doc(hidden)]
+pub mod __verif {
+    use super::*;
+
+    pub type Enc = (u8, usize, usize);
+
+    fn enc(x: &IntersectionIndex) -> Enc {
+        match x {
+            IntersectionIndex::Both(l, r) => (0, *l, *r),
+            IntersectionIndex::FirstA(l, r) => (1, *l, *r),
+            IntersectionIndex::FirstB(l, r) => (2, *l, *r),
+        }
+    }
+    fn dec(x: Enc) -> IntersectionIndex {
+        match x.0 {
+            0 => IntersectionIndex::Both(x.1, x.2),
+            1 => IntersectionIndex::FirstA(x.1, x.2),
+            _ => IntersectionIndex::FirstB(x.1, x.2),
+        }
+    }
+
+    pub fn next_indices<P: Prefix, L, R>(
+        l: &PrefixMap<P, L>,
+        r: &PrefixMap<P, R>,
+        node_l: Option<usize>,
+        node_r: Option<usize>,
+    ) -> Option<Enc> {
+        super::next_indices(&l.table, &r.table, node_l, node_r)
+            .as_ref()
+            .map(enc)
+    }
+    pub fn next_indices_first_a<P: Prefix, L, R>(
+        l: &PrefixMap<P, L>,
+        r: &PrefixMap<P, R>,
+        nl: usize,
+        nr: usize,
+    ) -> Option<Enc> {
+        let n = &l.table[nl];
+        super::next_indices_first_a(&l.table, &r.table, nl, n.left, n.right, nr)
+            .as_ref()
+            .map(enc)
+    }
+    pub fn next_indices_first_b<P: Prefix, L, R>(
+        l: &PrefixMap<P, L>,
+        r: &PrefixMap<P, R>,
+        nl: usize,
+        nr: usize,
+    ) -> Option<Enc> {
+        let n = &r.table[nr];
+        super::next_indices_first_b(&l.table, &r.table, nl, nr, n.left, n.right)
+            .as_ref()
+            .map(enc)
+    }
+
+    impl<'a, P: Prefix, L, R> Intersection<'a, P, L, R> {
+        pub fn __verif_from(
+            l: &'a PrefixMap<P, L>,
+            r: &'a PrefixMap<P, R>,
+            stack: &[Enc],
+            cap: usize,
+        ) -> Self {
+            let mut nodes = Vec::with_capacity(cap.max(stack.len()));
+            for e in stack {
+                nodes.push(dec(*e));
+            }
+            Intersection {
+                table_l: &l.table,
+                table_r: &r.table,
+                nodes,
+            }
+        }
+    }
+    impl<P, L, R> Intersection<'_, P, L, R> {
+        pub fn __verif_stack_len(&self) -> usize {
+            self.nodes.len()
+        }
+        pub fn __verif_stack_entry(&self, i: usize) -> Enc {
+            enc(&self.nodes[i])
+        }
+    }
+    impl<'a, P: Prefix, L, R> IntersectionMut<'a, P, L, R> {
+        pub fn __verif_from(
+            l: &'a mut PrefixMap<P, L>,
+            r: &'a mut PrefixMap<P, R>,
+            stack: &[Enc],
+            cap: usize,
+        ) -> Self {
+            let mut nodes = Vec::with_capacity(cap.max(stack.len()));
+            for e in stack {
+                nodes.push(dec(*e));
+            }
+            unsafe { IntersectionMut::new(&l.table, &r.table, nodes) }
+        }
+    }
+    impl<P, L, R> IntersectionMut<'_, P, L, R> {
+        pub fn __verif_stack_len(&self) -> usize {
+            self.nodes.len()
+        }
+        pub fn __verif_stack_entry(&self, i: usize) -> Enc {
+            enc(&self.nodes[i])
+        }
+    }
+}
